@@ -315,6 +315,20 @@ impl<'a> Gen<'a> {
                 for _ in 0..d.params.len() {
                     let a = if !params.is_empty() && self.c.boolean() {
                         Ty::named(&params[self.c.choose(params.len())], vec![])
+                    } else if self.c.prob(56) {
+                        // a nested instance: the parameters of the declared type may occur only
+                        // at depth two (`List[Pair[A, i64]]`)
+                        let d2 = self.types[self.c.choose(n_earlier)].clone();
+                        let inner: Vec<Ty> = (0..d2.params.len())
+                            .map(|_| {
+                                if !params.is_empty() && self.c.prob(150) {
+                                    Ty::named(&params[self.c.choose(params.len())], vec![])
+                                } else {
+                                    Ty::I64
+                                }
+                            })
+                            .collect();
+                        Ty::Named(d2.name.clone(), inner)
                     } else {
                         Ty::I64
                     };
